@@ -88,3 +88,8 @@ CFG["manifest"] = dict(
           "The model is hand-written and tied to the code differentially."),
     technique="Coq proof (invariants over the Parse pipeline, finite-map reasoning) + differential correspondence",
 )
+
+import tables  # constant tables / literals of the current source proved equal to the model's on every run (lib/tables.py)
+CFG["secondary"] = CFG.get("secondary", []) + [tables.C09_TABLES]
+import go2coq  # noqa: E402  (second tie: strutil.Underscore regenerated from the source on every run)
+CFG["secondary"] = CFG.get("secondary", []) + [go2coq.C09_SRC]
